@@ -518,7 +518,7 @@ REFINED = ["ConstDivisor::new (shift)", "ConstSingleDivisor::rem_word/rem_dword/
            "gen_modular_buf): the `words.len() >= modulus.len()` test of ConstLargeDivisor::rem_large, the product-buffer length `n.max(na + nb)` / `n.max(na * 2)`, "
            "the early return `na | nb == 0` / `na == 0` and the one-word shortcut test of mul_/sqr_normalized — the buffer mirrors are proved to CALL the "
            "regenerated definitions (buffer_logic_gen, rem_large_gen, mul_normalized_gen)"]
-FRONTIER = ["large::pow above the driver's work budget (n^2 * bit_len(exp) > 3e6 word operations) is executed with the value-level mul_normalized instead of the buffer-level one "
+FRONTIER = ["large::pow above the driver's work budget (n^2 * bit_len(exp) > 1.5e5 word operations) is executed with the value-level mul_normalized instead of the buffer-level one "
             "(pow_kernels_all proves both equal on every valid base, so this only bounds the running time of the check); inv_large's shr/shl/negate and the add/sub/neg "
             "word loops (add_same_len_in_place, sub_same_len_in_place, shl/shr_in_place) appear at their value (+, -, *2^k, /2^k with carry/borrow as comparison) — they are C01/C09 kernels",
             "the `s >= umax::BITS` arm of udouble::shl_u32 and the `self.hi >= rhs` arm of Rem<u128> for udouble are modelled and covered by the theorems "
@@ -543,7 +543,10 @@ RULE = ("moduli from {1, 2^k, odd/even single word, double word with/without nor
         "zero low half, 2^k-small) x operands m-1, m-2, (m+-1)/2, (m+-1)/3, 2, 3, m/phi, random, through inv / div / Reducer::inv (measured on the quick tier with a "
         "Python replica of u128::mulm: 3068 widening_mul + div_rem_2by1 calls, normalising shift 0 and 1..63, first/second digit with 0/1/2 correction steps, "
         "estimate >= B, rhat >= B break all hit); prim_boundary_cases — reduce of 0, +-1, +-(2^t + {-1,0,1}) for t in 7,8,15,16,31,32,63,64,127,128 (MIN/MAX of every "
-        "primitive type, all primitive call forms that fit) against moduli B^e, B^e+-1 (B = 2^64, 2^32, e = 1..4) and random moduli of every kind, operands m^2+-1, k*m+-1, B^e+-1. "
+        "primitive type, all primitive call forms that fit) against moduli B^e, B^e+-1 (B = 2^64, 2^32, e = 1..4) and random moduli of every kind, operands m^2+-1, k*m+-1, B^e+-1; "
+        "big_kernel_cases — moduli of 24, 25, 30..34, 66, 193/200 words (thorough: 23..26, 30..34, 48, 65, 66, 100, 192, 193, 200), i.e. on either side of mul THRESHOLD_SIMPLE, sqr MAX_LEN_SIMPLE, "
+        "div THRESHOLD_SIMPLE and THRESHOLD_KARATSUBA, x operands of n, n/2, 1, n-1 words through reduce (Knuth D and Burnikel-Ziegler), mul, sqr, pow, div — annotations "
+        "`<product arm>.<division arm>` (sq1 / sqr.simple|karatsuba|toom3 / mul11 / mul.simple|karatsuba|toom3 x same|uneven|empty x knuth|bz) all non-zero on the quick tier. "
         "The model driver annotates every case with the branch of the mirrored code it takes (reduce: ring kind x "
         "operand size class x shift x sign; mul/sqr: division / conditional subtraction / none; inv: raw_len arm x gcd class; pow: window length / exponent words; "
         "add/sub: carry / borrow) — histogram under coverage.annotations in the evidence file. Non-trivial := modulus above one word; distinct := distinct (op,args) lines.")
@@ -551,22 +554,24 @@ EXPLANATION = ("Lean theorems (all W, all moduli, all integers): reduce yields a
                "sqr preserve Valid and commute with residue; pow = a^e mod m for every e in every ring (square-and-multiply over words; windowed loop for multi-word rings); inv = Some x iff gcd(a,m)=1 "
                "and then a*x = 1; division; different rings panic. The driver executes the mirrored word-level kernels (rem_word/rem_dword/rem_large, "
                "fast_rem_by_normalized_(d)word, PreMulInv*::mul/sqr, inv_large through C12's extended-gcd kernels), each proved equal to the definition the "
-               "homomorphism theorems are about; inv_large's range claim |b| < modulus is a theorem. Round 5: multi-word reduce / * / sqr run on word buffers through C02's "
-               "mirrored div_rem_in_place (exactness by import of C02's theorem), and inv of single-/double-word rings runs num-modular's invm with machine arithmetic "
+               "homomorphism theorems are about; inv_large's range claim |b| < modulus is a theorem. Round 5: multi-word reduce / * / sqr / pow run on word buffers through C01's mirrored "
+               "mul::multiply / sqr::sqr and C02's mirrored div_rem_in_place (exactness by import of C01's / C02's theorems), and inv of single-/double-word rings runs num-modular's invm with machine arithmetic "
                "(u128 through udouble::widening_mul and div_rem_2by1), proved overflow-free and equal to the Nat-level invm.")
 ASSUMPTIONS = ["word size W >= 4 for the multi-word multiplication / division links (hypothesis of C01's Toom-3 carry bounds, inherited by C02's Burnikel-Ziegler theorem)",
                "usize has 64 bits in choose_pow_window_len's loop guard (WORD_BITS.min(usize::BIT_SIZE))"]
 LEVEL_TEXT = ("Machine-checked Lean 4 theorems over an executable model that mirrors the pre-shifted residue representation of "
               "ConstDivisor/Reduced (single, double and multi-word rings): for every word size, modulus m >= 1 and all integers, "
               "reduce/+/-/*/neg/dbl/sqr/pow (incl. the windowed multi-word loop)/inv/div are the homomorphic image of integer arithmetic with residues in [0,m), inverse "
-              "exists iff coprime, mixing rings panics. The word-level kernels of reduce (two-step rem_dword, fast_rem_by_normalized_word/_dword), of the single- and "
-              "double-word products and inv_large (C12's mirrored gcd_ext kernels, range claim |b| < modulus proved) are mirrored, executed and proved equal to the "
-              "arithmetic definitions; the multi-word reductions (rem_large, mul_normalized) run C01's mirrored multiply/sqr and C02's mirrored div_rem_in_place on word buffers with exactness imported from C01's/C02's theorems; "
-              "num-modular's invm is mirrored with machine arithmetic (checked/wrapping u64/u128, udouble) and proved overflow-free and exact; "
-              "decision logic of mul/pow/div is regenerated from source and proved equal to the model's. The model is tied to /repo on every "
+              "exists iff coprime, mixing rings panics. Every arithmetic kernel under these operations is mirrored, executed by the model driver and proved equal to the "
+              "arithmetic definition the homomorphism theorems are about: the word-level reductions of single- and double-word rings (two-step rem_dword, "
+              "fast_rem_by_normalized_word/_dword, PreMulInv*::mul/sqr over the mirrored Moeller-Granlund dividers); the multi-word reductions and products on word buffers "
+              "(rem_large, mul_normalized, sqr_normalized, the windowed pow loop) through C01's mirrored multiplication and C02's mirrored Knuth-D / Burnikel-Ziegler division, "
+              "with exactness imported from C01's / C02's theorems (W >= 4); inv_large through C12's mirrored extended-gcd kernels with the range claim |b| < modulus proved; "
+              "num-modular's invm with machine arithmetic (checked / wrapping u64 / u128, udouble::widening_mul, div_rem_2by1) proved overflow-free and exact for every width. "
+              "Decision logic of mul/pow/div and of the buffer mirrors is regenerated from source and proved equal to the model's. The model is tied to /repo on every "
               "run by differential execution against ConstDivisor::reduce, all Reduced operator call forms and the num_modular::Reducer impl.")
 LEVEL_NOTE = ("Trusted: Lean kernel; axioms propext/Classical.choice/Quot.sound; correspondence harness + generators (sampling) for the tie "
-              "model<->code; the regeneration script vlib/extract.py "
+              "model<->code (incl. that num-modular 0.6.5's invm / udouble are transcribed faithfully: that crate is outside /repo, so no Tie A for it); the regeneration script vlib/extract.py "
               "for the Tie-A definitions.")
 TECHNIQUE = "Lean 4 refinement proofs (value-level model of the pre-shifted residue representation, word-level mirrors of the division/gcd kernels) + regeneration of decision logic from source + differential correspondence model vs real code"
 THEOREMS = ["Dashu.Props.C13." + t for t in ["new_spec", "reduce_spec", "ops_closed", "hom_add", "hom_sub", "hom_mul", "hom_neg", "hom_dbl",
